@@ -274,6 +274,12 @@ func init() {
 			}
 			return in.ts.Const(64, 0)
 		},
+		"time.After": func(in *Interp, _ *frame, _ token.Pos, _ []Value) Value {
+			// the timer fires: a channel that already holds the tick
+			ch := in.newChan(1, nil)
+			ch.buf = append(ch.buf, Struct{in.ts.Const(64, 0), in.ts.Const(64, 0), (*Value)(nil)})
+			return ch
+		},
 		"time.Sleep": func(in *Interp, _ *frame, _ token.Pos, _ []Value) Value { in.schedPoint(); return nil },
 		"(time.Time).Sub": func(in *Interp, _ *frame, _ token.Pos, _ []Value) Value {
 			return in.ts.Const(64, 0)
